@@ -1,4 +1,5 @@
 import MontePyVerif.Lemmas.Links
+import MontePyVerif.Lemmas.LinksLoad
 /-!
 # C16 — forward links and reverse look-ups of the object graph always agree
 
@@ -54,7 +55,7 @@ theorem same_updCell (st : St) (c : ObjId) (f : CellSt → CellSt)
 
 theorem same_setLinked (st : St) (k : Kind) (o : ObjId) : Same st (st.setLinked k o) := by
   cases k
-  · exact same_updCell st o _ (fun _ => ⟨rfl, rfl, rfl⟩)
+  · exact ⟨rfl, fun x => linkCell_cellOf st o x⟩
   all_goals exact Same.refl _
 
 theorem same_setMembers (st : St) (k : Kind) (l : List ObjId) : Same st (st.setMembers k l) := by
@@ -70,6 +71,13 @@ theorem same_foldl {α : Type} (f : St → α → St) (hf : ∀ s x, Same s (f s
   | nil => intro st; exact Same.refl st
   | cons a t ih => intro st; exact (hf st a).trans (ih (f st a))
 
+theorem same_setMaterial (st : St) (c : ObjId) (m : Option ObjId) : Same st (setMaterial st c m).1 :=
+  (same_updCell st c (fun cs => { cs with mat := m }) (fun _ => ⟨rfl, rfl, rfl⟩)).trans ⟨rfl, fun _ => ⟨rfl, rfl, rfl⟩⟩
+
+theorem same_setUniverse (st : St) (c u : ObjId) : Same st (setUniverse st c u).1 :=
+  (same_updCell st c (fun cs => { cs with univ := some u }) (fun _ => ⟨rfl, rfl, rfl⟩)).trans
+    ⟨rfl, fun _ => ⟨rfl, rfl, rfl⟩⟩
+
 /-- the edits that do not touch any geometry or container -/
 theorem same_step (st : St) (op : Op)
     (h : match op with
@@ -77,13 +85,12 @@ theorem same_step (st : St) (op : Op)
       | .setMaterials .. | .setCells .. | .addCellChildren | .reupdate => True
       | _ => False) : Same st (step st op).1 := by
   cases op with
-  | setMaterial c m => exact same_updCell st c _ (fun _ => ⟨rfl, rfl, rfl⟩)
-  | setUniverse c u => exact same_updCell st c _ (fun _ => ⟨rfl, rfl, rfl⟩)
+  | setMaterial c m => exact same_setMaterial st c m
+  | setUniverse c u => exact same_setUniverse st c u
   | claim u cs =>
     simp only [step, claim]
     split
-    · exact same_foldl (fun s c => (setUniverse s c u).1)
-        (fun s x => same_updCell s x _ (fun _ => ⟨rfl, rfl, rfl⟩)) cs st
+    · exact same_foldl (fun s c => (setUniverse s c u).1) (fun s x => same_setUniverse s x u) cs st
     · exact Same.refl st
   | setFill c u => exact same_updCell st c _ (fun _ => ⟨rfl, rfl, rfl⟩)
   | setNumber k o n =>
@@ -442,19 +449,27 @@ theorem C16_reverse_complement_geometry (st : St) (c d : ObjId) (g : HS) (h : In
   rw [C16_reverse_complement]
   exact ⟨hl, hd, hne, (h d g hg).2.2 c hc⟩
 
-/-- history used by the refutations: a cell from scratch is appended to the problem, then gets a material
-    and a universe that were never registered with the problem -/
-def orphanOps : List Op := [.append .cell 0, .setMaterial 0 (some 1), .setUniverse 0 3]
+/-- history used by the refutation: a cell from scratch complements another cell from scratch and is then
+    appended to the problem; the complemented cell never is -/
+def orphanOps : List Op := [.setGeometry 1 (.compl (.leaf true 0 true none) none), .append .cell 1]
 
 /-- **C16_reverse_refuted** — "exactly the cells whose forward links point at that object" fails for a
-    target that is not linked to the problem: the generator searches through `self._problem`
-    (known finding C16-F2a). -/
+    target that is not linked to the problem: the generators search through `self._problem`.  Since the repair
+    fccf732 a material / universe / surface a linked cell points at always is linked; what is left is a
+    *complemented cell* that is not itself part of the problem (known finding C16-F2a). -/
 theorem C16_reverse_refuted :
-    ¬ (∀ (st : St) (m d : ObjId), d ∈ st.cells → (st.cellOf d).mat = some m → d ∈ materialCells st m) := by
+    ¬ (∀ (st : St) (c d : ObjId), d ∈ st.cells → d ≠ c → c ∈ (st.cellOf d).comps → d ∈ cellsComplementing st c) := by
   intro hall
-  have := hall (run (demo false) orphanOps) 1 0 (by decide) (by decide)
+  have := hall (run (demo false) orphanOps) 0 1 (by decide) (by decide) (by decide)
   revert this
   decide
+
+/-- **C16_reverse_setMaterial** — the repaired setter: assigning a material to a cell that is linked to the
+    problem links the material, so its reverse look-up yields the cell at once. -/
+theorem C16_reverse_setMaterial (st : St) (c m : ObjId) (hl : (st.cellOf c).link = true) (hc : c ∈ st.cells) :
+    c ∈ materialCells (setMaterial st c (some m)).1 m := by
+  rw [C16_reverse_material]
+  refine ⟨by simp [setMaterial, hl], hc, m, by simp [setMaterial], by simp [matEq]⟩
 
 /-- **C16_reverse_partial** — for a linked target the reverse look-up does yield every cell of the problem
     whose forward link points at it. -/
@@ -499,21 +514,27 @@ theorem C16_universe_refuted :
   rw [hnone] at hu
   cases hu
 
-/-- assigning a linked universe to every cell of the problem (e.g. `claim` by a member of
-    `problem.universes`) establishes `UnivOK` for those cells: the step that repairs the refuting history -/
-theorem C16_universe_setUniverse (st : St) (c u : ObjId) (h : UnivOK st) (hl : st.ulink u = true) :
-    UnivOK (setUniverse st c u).1 := by
+/-- assigning a universe to a cell keeps `UnivOK` when the universe is linked or — repaired setter — the cell
+    is (the universe is linked by the assignment): `claim` on the cells of a problem can no longer break it -/
+theorem C16_universe_setUniverse (st : St) (c u : ObjId) (h : UnivOK st)
+    (hl : st.ulink u = true ∨ (st.cellOf c).link = true) : UnivOK (setUniverse st c u).1 := by
   intro d hd
   simp only [setUniverse] at hd ⊢
   by_cases hdc : d = c
   · subst hdc
-    exact ⟨u, by simp, hl⟩
+    refine ⟨u, by simp, ?_⟩
+    rcases hl with hl | hl <;> simp [hl]
   · obtain ⟨u', hu', hl'⟩ := h d hd
-    exact ⟨u', by simpa [hdc] using hu', hl'⟩
+    refine ⟨u', by simpa [hdc] using hu', ?_⟩
+    show (if ((st.cellOf c).link && u == u') = true then true else st.ulink u') = true
+    split
+    · rfl
+    · exact hl'
 
 example : UnivOK (run (demo false) [.append .universe 3, .append .cell 0, .setUniverse 0 3]) := by
   intro d hd
-  have : d = 0 := by simpa [run, step, collAppend, St.members, St.setMembers, St.setLinked, demo, St.blank, setUniverse, St.updCell] using hd
+  have hcells : (run (demo false) [.append .universe 3, .append .cell 0, .setUniverse 0 3]).cells = [0] := by decide
+  have : d = 0 := by rw [hcells] at hd; simpa using hd
   rw [this]
   exact ⟨3, by decide, by decide⟩
 
@@ -528,12 +549,15 @@ theorem InvLinked.ext {st st' : St} (h : InvLinked st) (e : LinkExt st st') : In
   exact e.linked k o (h k o ho)
 
 theorem setLinked_linked (st : St) (k : Kind) (o : ObjId) : (st.setLinked k o).linked k o = true := by
-  cases k <;> simp [St.setLinked, St.linked, upd]
+  cases k <;> simp [St.setLinked, St.linkCell, St.linked, upd]
 
 theorem setLinked_mono (st : St) (k k' : Kind) (o x : ObjId) (h : st.linked k' x = true) :
     (st.setLinked k o).linked k' x = true := by
-  cases k <;> cases k' <;> simp only [St.setLinked, St.linked, updCell_cellOf, upd] at h ⊢ <;>
-    first | exact h | (split <;> first | rfl | exact h | (subst_vars; simp_all))
+  cases k
+  · exact (linkCell_ext st o).linked k' x h
+  all_goals
+    cases k' <;> simp only [St.setLinked, St.linked, upd] at h ⊢ <;>
+      first | exact h | (split <;> first | rfl | exact h)
 
 theorem setLinked_members (st : St) (k k' : Kind) (o : ObjId) : (st.setLinked k o).members k' = st.members k' := by
   cases k <;> cases k' <;> rfl
@@ -586,6 +610,32 @@ theorem mem_sortByNum (num : ObjId → Int) (x : ObjId) : ∀ l, x ∈ sortByNum
     have : sortByNum num (a :: t) = insertByNum num a (sortByNum num t) := rfl
     rw [this, mem_insertByNum, ih]
     simp
+
+theorem setMaterial_linkExt (st : St) (c : ObjId) (m : Option ObjId) : LinkExt st (setMaterial st c m).1 := by
+  refine (linkExt_updCell st c (fun cs => { cs with mat := m }) (fun x => x)).trans
+    ⟨fun k => by cases k <;> rfl, fun k o h => ?_⟩
+  cases k
+  · exact h
+  · exact h
+  · show (if ((st.cellOf c).link && m == some o) = true then true else st.mlink o) = true
+    split
+    · rfl
+    · exact h
+  · exact h
+  · exact h
+
+theorem setUniverse_linkExt (st : St) (c u : ObjId) : LinkExt st (setUniverse st c u).1 := by
+  refine (linkExt_updCell st c (fun cs => { cs with univ := some u }) (fun x => x)).trans
+    ⟨fun k => by cases k <;> rfl, fun k o h => ?_⟩
+  cases k
+  · exact h
+  · exact h
+  · exact h
+  · show (if ((st.cellOf c).link && u == o) = true then true else st.ulink o) = true
+    split
+    · rfl
+    · exact h
+  · exact h
 
 theorem setGeometry_linkExt (st : St) (c : ObjId) (g : HS) : LinkExt st (setGeometry st c g).1 := by
   simp only [setGeometry]
@@ -687,13 +737,13 @@ theorem C16_linked_step (st : St) (op : Op) (h : InvLinked st) : InvLinked (step
           | some err => (try dsimp only at *); exact h.ext this
           | none => (try dsimp only at *); exact h.ext (this.trans (linkExt_updCell st1 c _ (fun x => x)))
       · exact h
-  | setMaterial c m => simp only [step, setMaterial]; exact h.ext (linkExt_updCell st c _ (fun x => x))
-  | setUniverse c u => simp only [step, setUniverse]; exact h.ext (linkExt_updCell st c _ (fun x => x))
+  | setMaterial c m => exact h.ext (setMaterial_linkExt st c m)
+  | setUniverse c u => exact h.ext (setUniverse_linkExt st c u)
   | claim u cs =>
     simp only [step, claim]
     split
     · (try dsimp only at *); exact h.ext (linkExt_foldl (fun s c => (setUniverse s c u).1)
-        (fun s x => by simp only [setUniverse]; exact linkExt_updCell s x _ (fun y => y)) cs st)
+        (fun s x => setUniverse_linkExt s x u) cs st)
     · exact h
   | setFill c u => simp only [step, setFill]; exact h.ext (linkExt_updCell st c _ (fun x => x))
   | setNumber k o n =>
@@ -809,5 +859,227 @@ example : (run (demo false) [.append .cell 0, .setGeometry 0 (.leaf false 1 true
     .append .surface 2]).surfaces = [1, 2] ∧
     (run (demo false) [.append .cell 0, .setGeometry 0 (.leaf false 1 true none), .addCellChildren,
     .append .surface 2]).slink 2 = true := by decide
+
+/-! ## directly after reading -/
+
+/-- **C16_load** — after the model's `load` (every input appended to its collection, then
+    `Cells.update_pointers`, then the universe and fill cards pushed to the cells), for every cell of the file the
+    containers hold *exactly* the dividers of the geometry: `leaves (c.geometry) = c.surfaces ∪ c.complements`
+    as sets of objects, and every node of the geometry points at the cell.  `UniqS st`: the problem read into
+    has no two surfaces with one number (the blank pool: none at all). -/
+theorem C16_load (st : St) (pcs : List PCell) (nS nM nT : Nat) (nextU : ObjId) (hu : UniqS st)
+    (h : (load st pcs nS nM nT nextU).1.2 = none) :
+    ∀ c, c < pcs.length → Exact (load st pcs nS nM nT nextU).1.1 c := by
+  unfold load at h ⊢
+  dsimp only at h ⊢
+  have u1 := appendAll_uniq .cell (List.range pcs.length) st hu
+  generalize appendAll .cell (List.range pcs.length) st = r1 at u1 h ⊢
+  obtain ⟨st1, e1⟩ := r1
+  cases e1 with
+  | some err => cases h
+  | none =>
+    dsimp only at u1 h ⊢
+    have u2 := appendAll_uniq .surface (List.range nS) st1 u1
+    generalize appendAll .surface (List.range nS) st1 = r2 at u2 h ⊢
+    obtain ⟨st2, e2⟩ := r2
+    cases e2 with
+    | some err => cases h
+    | none =>
+      dsimp only at u2 h ⊢
+      have u3 := appendAll_uniq .material (List.range nM) st2 u2
+      generalize appendAll .material (List.range nM) st2 = r3 at u3 h ⊢
+      obtain ⟨st3, e3⟩ := r3
+      cases e3 with
+      | some err => cases h
+      | none =>
+        dsimp only at u3 h ⊢
+        have u4 := appendAll_uniq .transform (List.range nT) st3 u3
+        generalize appendAll .transform (List.range nT) st3 = r4 at u4 h ⊢
+        obtain ⟨st4, e4⟩ := r4
+        cases e4 with
+        | some err => cases h
+        | none =>
+          dsimp only at u4 h ⊢
+          have u5 : UniqS { st4 with dataM := List.range nM, dataT := List.range nT } := u4
+          have hids : (((List.range pcs.length).zip pcs).map Prod.fst) = List.range pcs.length :=
+            List.map_fst_zip (by simp)
+          generalize hup : updateAllCells ((List.range pcs.length).zip pcs)
+            { st4 with dataM := List.range nM, dataT := List.range nT } = r5 at h ⊢
+          obtain ⟨st6, e6⟩ := r5
+          cases e6 with
+          | some err => cases h
+          | none =>
+            dsimp only at h ⊢
+            have hsp := updateAllCells_spec _ _ st6 hup u5 (by rw [hids]; exact List.nodup_range)
+            intro c hc
+            have hcm : c ∈ ((List.range pcs.length).zip pcs).map Prod.fst := by
+              rw [hids]; exact List.mem_range.mpr hc
+            obtain ⟨p, hp, hpc⟩ := List.mem_map.mp hcm
+            have hex := hsp.2.2 p hp
+            rw [hpc] at hex
+            have s1 := pushUniverses_same ((List.range pcs.length).zip pcs) st6 nextU
+            have s2 := pushFills_same ((List.range pcs.length).zip pcs)
+              (pushUniverses ((List.range pcs.length).zip pcs) st6 nextU).1
+            exact hex.of_eq ((s1.trans s2) c)
+
+/-- the containment invariant holds for the cells of the file directly after reading -/
+theorem C16_load_contain (st : St) (pcs : List PCell) (nS nM nT : Nat) (nextU : ObjId) (hu : UniqS st)
+    (h : (load st pcs nS nM nT nextU).1.2 = none) (c : ObjId) (hc : c < pcs.length) :
+    Contain (load st pcs nS nM nT nextU).1.1 c := by
+  obtain ⟨g, hg, ha, hs, hcm⟩ := C16_load st pcs nS nM nT nextU hu h c hc
+  intro g' hg'
+  rw [hg] at hg'
+  cases hg'
+  exact ⟨ha, fun s hs' => (hs s).mpr hs', fun d hd => (hcm d).mpr hd⟩
+
+/-- non-vacuity: a two-cell file (`1 0 -1 2`, `2 0 #1 1`) loads, cell 1 shares a surface and complements cell 0 -/
+def demoFile : List PCell :=
+  [{ num := 1, mat := 0, geom := .bin false (.leaf false 1 false) (.leaf false 2 true), univ := none, fill := none },
+   { num := 2, mat := 0, geom := .bin false (.compl (.leaf true 1 true)) (.bin false (.leaf false 1 true) (.leaf false 1 true)),
+     univ := some 5, fill := none }]
+
+example : (load (demo false) demoFile 2 0 0 0).1.2 = none ∧
+    ((load (demo false) demoFile 2 0 0 0).1.1.cellOf 1).surfs = [0] ∧
+    ((load (demo false) demoFile 2 0 0 0).1.1.cellOf 1).comps = [0] := by decide
+
+example : UniqS (demo false) := by simp [UniqS, demo, St.blank]
+
+/-! ## after `add_cell_children_to_problem` -/
+
+/-- no two distinct materials of the pool can be `==` -/
+def NoCloneM (st : St) : Prop := ∀ a b, st.mshape a = st.mshape b → a = b
+
+theorem setAdd_fold_spec (eq : ObjId → ObjId → Bool) (hrefl : ∀ o, eq o o = true) : ∀ (l acc : List ObjId),
+    (∀ x ∈ acc, x ∈ l.foldl (setAdd eq) acc) ∧ (∀ o ∈ l, ∃ x ∈ l.foldl (setAdd eq) acc, eq o x = true) := by
+  intro l
+  induction l with
+  | nil => intro acc; exact ⟨fun _ h => h, fun o ho => by cases ho⟩
+  | cons a t ih =>
+    intro acc
+    simp only [List.foldl_cons]
+    obtain ⟨h1, h2⟩ := ih (setAdd eq acc a)
+    have hsub : ∀ x ∈ acc, x ∈ setAdd eq acc a := by
+      intro x hx; unfold setAdd; split
+      · exact hx
+      · exact List.mem_append_left _ hx
+    refine ⟨fun x hx => h1 x (hsub x hx), fun o ho => ?_⟩
+    rcases List.mem_cons.mp ho with rfl | ht
+    · by_cases hany : (acc.any fun x => eq o x) = true
+      · have hany' := hany
+        rw [List.any_eq_true] at hany'
+        obtain ⟨x, hx, he⟩ := hany'
+        exact ⟨x, h1 x (hsub x hx), he⟩
+      · have : o ∈ setAdd eq acc o := by unfold setAdd; rw [if_neg hany]; simp
+        exact ⟨o, h1 o this, hrefl o⟩
+    · exact h2 o ht
+
+theorem collect_spec (eq : ObjId → ObjId → Bool) (hrefl : ∀ o, eq o o = true) (items : ObjId → List ObjId) :
+    ∀ (cells acc : List ObjId),
+    (∀ x ∈ acc, x ∈ collect eq items cells acc) ∧
+    (∀ c ∈ cells, ∀ o ∈ items c, ∃ x ∈ collect eq items cells acc, eq o x = true) := by
+  intro cells
+  induction cells with
+  | nil => intro acc; exact ⟨fun _ h => h, fun c hc => by cases hc⟩
+  | cons a t ih =>
+    intro acc
+    unfold collect
+    simp only [List.foldl_cons]
+    obtain ⟨h1, h2⟩ := ih ((items a).foldl (setAdd eq) acc)
+    unfold collect at h1 h2
+    have hf := setAdd_fold_spec eq hrefl (items a) acc
+    refine ⟨fun x hx => h1 x (hf.1 x hx), fun c hc o ho => ?_⟩
+    rcases List.mem_cons.mp hc with rfl | ht
+    · obtain ⟨x, hx, he⟩ := hf.2 o ho
+      exact ⟨x, h1 x hx, he⟩
+    · exact h2 c ht o ho
+
+/-- **C16_children** — after a successful `add_cell_children_to_problem`, for every cell of the problem: every
+    surface in `cell.surfaces` is a member of `problem.surfaces` (what `write_to_file` iterates for the surface
+    block) and is linked; the transform of such a surface is a member of `problem.transforms`, is in
+    `data_inputs` (what `write_to_file` iterates for the data block) and is linked; the cell's material is a member
+    of `problem.materials`, is in `data_inputs` and is linked.  Identity statement: needs `NoClones` / `NoCloneM`
+    (with distinct-but-equal objects only one of them becomes a member: known finding C16-F1c). -/
+theorem C16_children (st : St) (hok : (addCellChildren st).2 = none) (hs : NoClones st) (hm : NoCloneM st)
+    (c : ObjId) (hc : c ∈ st.cells) :
+    c ∈ (addCellChildren st).1.cells ∧
+    (∀ s ∈ ((addCellChildren st).1.cellOf c).surfs,
+      s ∈ (addCellChildren st).1.surfaces ∧ (addCellChildren st).1.slink s = true ∧
+      ∀ t, st.strans s = some t → t ∈ (addCellChildren st).1.transforms ∧ t ∈ (addCellChildren st).1.dataT ∧
+        (addCellChildren st).1.tlink t = true) ∧
+    (∀ m, ((addCellChildren st).1.cellOf c).mat = some m →
+      m ∈ (addCellChildren st).1.materials ∧ m ∈ (addCellChildren st).1.dataM ∧
+      (addCellChildren st).1.mlink m = true) := by
+  unfold addCellChildren at hok ⊢
+  dsimp only at hok ⊢
+  split at hok
+  · cases hok
+  · rename_i hcond
+    rw [if_neg hcond]
+    dsimp only
+    have hS := (collect_spec (surfEq st) (fun o => by simp [surfEq]) (fun c => (st.cellOf c).surfs) st.cells st.surfaces).2 c hc
+    have hT := (collect_spec (fun x y => x == y) (fun o => by simp)
+      (fun c => (st.cellOf c).surfs.filterMap st.strans) st.cells st.transforms).2 c hc
+    have hM := (collect_spec (matEq st) (fun o => by simp [matEq]) (fun c => (st.cellOf c).mat.toList) st.cells st.materials).2 c hc
+    refine ⟨hc, fun s hsm => ?_, fun m hmat => ?_⟩
+    · obtain ⟨x, hx, he⟩ := hS s hsm
+      have hxe : s = x := by
+        unfold surfEq at he
+        simp only [Bool.and_eq_true, beq_iff_eq] at he
+        exact hs _ _ he.2
+      subst hxe
+      refine ⟨(mem_sortByNum _ _ _).mpr hx, by simp [hx], fun t ht => ?_⟩
+      obtain ⟨y, hy, hey⟩ := hT t (List.mem_filterMap.mpr ⟨s, hsm, ht⟩)
+      have : t = y := by simpa using hey
+      subst this
+      refine ⟨(mem_sortByNum _ _ _).mpr hy, ?_, by simp [hy]⟩
+      obtain ⟨z, hz, hez⟩ := (setAdd_fold_spec (fun x y => x == y) (fun o => by simp) _ st.dataT).2 t hy
+      have : t = z := by simpa using hez
+      subst this
+      exact hz
+    · obtain ⟨x, hx, he⟩ := hM m (by simp [hmat])
+      have hxe : m = x := by
+        unfold matEq at he
+        simp only [Bool.and_eq_true, beq_iff_eq] at he
+        exact hm _ _ he.2
+      subst hxe
+      refine ⟨(mem_sortByNum _ _ _).mpr hx, ?_, by simp [hx]⟩
+      obtain ⟨z, hz, hez⟩ := (setAdd_fold_spec (matEq st) (fun o => by simp [matEq]) _ st.dataM).2 m hx
+      have : m = z := by
+        unfold matEq at hez
+        simp only [Bool.and_eq_true, beq_iff_eq] at hez
+        exact hm _ _ hez.2
+      subst this
+      exact hz
+
+/-- … and against the forward links of the *geometry* (with the containment invariant): every surface the
+    geometry of a cell of the problem uses is a member of `problem.surfaces` and linked afterwards. -/
+theorem C16_children_geometry (st : St) (hok : (addCellChildren st).2 = none) (hi : InvContain st)
+    (hs : NoClones st) (hm : NoCloneM st) (c : ObjId) (hc : c ∈ st.cells) (g : HS)
+    (hg : (st.cellOf c).geom = some g) (s : ObjId) (hsg : s ∈ g.surfs) :
+    s ∈ (addCellChildren st).1.surfaces ∧ (addCellChildren st).1.slink s = true := by
+  have hsame := same_step st .addCellChildren trivial
+  have h := (C16_children st hok hs hm c hc).2.1 s (by
+    have : ((addCellChildren st).1.cellOf c).surfs = (st.cellOf c).surfs := (hsame.2 c).2.1
+    rw [this]; exact (hi c g hg).2.1 s hsg)
+  exact ⟨h.1, h.2.1⟩
+
+/-- a refused rebuild (two different objects with one number) changes nothing -/
+theorem C16_children_conflict (st : St) (h : (addCellChildren st).2 ≠ none) : (addCellChildren st).1 = st := by
+  unfold addCellChildren at h ⊢
+  dsimp only at h ⊢
+  split
+  · rfl
+  · rename_i hc; rw [if_neg hc] at h; exact absurd rfl h
+
+/-- non-vacuity: a cell from scratch with a new surface and a new material; afterwards both are members,
+    linked, and the material is in `data_inputs` -/
+example : NoCloneM (demo false) := by
+  intro a b hab
+  simpa [demo, St.blank] using hab
+
+example :
+    let st := run (demo false) [.append .cell 0, .setGeometry 0 (.leaf false 1 true none), .setMaterial 0 (some 2)]
+    (addCellChildren st).2 = none ∧ (addCellChildren st).1.surfaces = [1] ∧ (addCellChildren st).1.dataM = [2] ∧
+    (addCellChildren st).1.slink 1 = true ∧ (addCellChildren st).1.mlink 2 = true := by decide
 
 end MontePyVerif.Links
